@@ -197,7 +197,10 @@ def run(R):
         ex = R.executor(F)
         res = R.run_entry(ex, sc)
         cmd_strobe = strobe_dfa(lambda s: is_from_of(bus_word(s), lambda a: isinstance(a, IntV) and repr(a.poly()) == "command"))
-        arg_strobe = strobe_dfa(lambda s: is_from_of(bus_word(s), lambda a: isinstance(a, IntV) and "next#" in repr(a.poly()) and "@Some" in repr(a.poly())))
+        # a parameter word: an item yielded by the iterator over `args`, or `args[i]` with i the item of an index range
+        arg_strobe = strobe_dfa(lambda s: is_from_of(bus_word(s), lambda a: isinstance(a, IntV) and (
+            ("next#" in repr(a.poly()) and "@Some" in repr(a.poly()) and not repr(a.poly()).startswith("elem("))
+            or (a.poly().is_atom() is not None and repr(a.poly()).startswith("elem(*args)[next#") and "@Some" in repr(a.poly())))))
 
         def step(q, s):
             if q == "start" and s.cls == "PIN_LO" and recv_is(s, ".dc"):
@@ -238,6 +241,21 @@ def run(R):
                         srcs.append(e.pointees[0])
             ok = bool(srcs) and all(isinstance(v, Agg) and (v.name or "") == "core::slice::iter" and isinstance(v.fields[0], Ptr)
                                     and v.fields[0].root == ("O", "*args") for v in srcs)
+            if not ok and srcs and all(isinstance(v, Agg) and (v.name or "") == "core::ops::range::Range" for v in srcs):
+                # an index loop `for i in 0..args.len() { .. args[i] .. }`: the range is 0..len(args) on entry and every
+                # word put on the bus in an iteration is args[item of that iteration]
+                ln = sym_int("len(args)", F.pointer_bits, False)
+                starts = [v for k, v in l["entry_values"].items() if isinstance(v, IntV) and k.split("~")[0].endswith((".start", ".0"))]
+                whole = [v for k, v in l["entry_values"].items() if isinstance(v, Agg) and (v.name or "") == "core::ops::range::Range"]
+                starts += [v.fields[0] for v in whole if isinstance(v.fields[0], IntV)]
+                ok = bool(starts) and all(v.poly() == ZERO for v in starts) \
+                    and all(isinstance(v.fields[1], IntV) and v.fields[1].poly() == ln for v in srcs)
+                for c in l["cont"]:
+                    evs_ = [e for e in TR.flatten_events(c["trace"], res.loops) if e.kind == "call"]
+                    items = [e.ret.name for e in evs_ if TR.classify(e).cls == "NEXT" and isinstance(e.ret, SymV)]
+                    words = [bus_word(TR.classify(e)) for e in evs_ if TR.classify(e).cls == "BUS"]
+                    ok = ok and len(items) == 1 and bool(words) and all(
+                        is_from_of(w, lambda a: isinstance(a, IntV) and repr(a.poly()).startswith("elem(*args)[%s@Some.0]" % items[0])) for w in words)
             R.ob("C07a-params-in-slice-order", "%s|send_command|loop-source" % cfg, ok,
                  "the parameter loop does not iterate the `args` slice front to back (iterators pulled from: %r)" % (srcs[:2],))
         # send_pixels: (strobe(word))* over the stream items, no DC event
@@ -286,6 +304,14 @@ def run(R):
                 # analysed through the prelude): the value it had on entry
                 rng = [v for k, v in l["entry_values"].items() if isinstance(v, Agg) and (v.name or "").endswith("Range")]
                 conts = l["cont"]
+                if not rng:
+                    # the range's start is the only part the loop changes: its entry value, with the end as `next` sees it
+                    st0 = [v for k, v in l["entry_values"].items() if isinstance(v, IntV) and k.split("~")[0].endswith((".start", ".0"))]
+                    ends = [e.pointees[0] for c in conts for e in TR.flatten_events(c["trace"], res.loops)
+                            if e.kind == "call" and TR.classify(e).cls == "NEXT" and e.pointees and isinstance(e.pointees[0], Agg)
+                            and (e.pointees[0].name or "").endswith("Range")]
+                    if len(st0) == 1 and ends and all(isinstance(x.fields[1], IntV) and x.fields[1].poly() == ends[0].fields[1].poly() for x in ends):
+                        rng = [Agg("adt", "core::ops::range::Range", 0, [st0[0], ends[0].fields[1]], None)]
                 words = [[(s.cls + ":" + (s.recv or "")) if s.cls != "NEXT" else "NEXT" for s in TR.syms_of(TR.flatten_events(c["trace"], res.loops))] for c in conts]
                 # the fast path is the integer-range loop that strobes without touching the bus (the general path
                 # sets the bus in its loop and is covered by the word rules)
@@ -300,8 +326,10 @@ def run(R):
                     nfast += 1
                     start, end = rng[0].fields[0].poly(), rng[0].fields[1].poly()
                     cnt = sym_int("count", 32, False)
-                    R.ob("C07c-strobe-count", "%s|range" % tagn, start == ONE and end == cnt * N,
-                         "the bare-strobe loop runs over %r..%r; with the first full word it must give count*N strobes, i.e. 1..count*%d" % (start, end, N),
+                    fe = l["entry_state"].facts if l.get("entry_state") is not None else None
+                    trips = fe.simplify(end - start) if fe is not None else end - start
+                    R.ob("C07c-strobe-count", "%s|range" % tagn, trips == cnt * N - ONE or (start == ONE and end == cnt * N),
+                         "the bare-strobe loop runs over %r..%r; with the first full word it must give count*N strobes, i.e. count*%d - 1 passes" % (start, end, N),
                          sample={"N": N, "range": [repr(start), repr(end)]})
                     okw = all(w == ["NEXT", "PIN_LO:*self.wr", "PIN_HI:*self.wr"] for w in words) and bool(words)
                     R.ob("C07c-bare-strobes", "%s|loop-body" % tagn, okw,
